@@ -3,7 +3,7 @@
 From Coq Require Import List NArith Bool.
 From Storage Require Import Base.Bytes Lang.Tokens Lang.Lexer Lang.BoolGrammar Lang.Listener Lang.BoolSurface
   Lang.BoolGrammarProofs Lang.LexerProofs Lang.C12Proofs Lang.Regex Lang.LexerFull Lang.WordOps Lang.WordOpsProofs Lang.WordOpsLexProofs
-  Lang.BoolRows Lang.C12W3Proofs.
+  Lang.BoolRows Lang.C12W3Proofs Lang.ChainGroupings Lang.C12W5Proofs.
 Import ListNotations.
 Open Scope N_scope.
 
@@ -212,3 +212,36 @@ Example inverse_comparison_reading_refuted :
   exists tn (rho : str -> bool), compile fixed_prec (printE (ENot (ELast (XParen (ELast a))))) = Some tn /\
     semP a rho = false /\ semP b rho = false /\ eval tn rho = true /\ eval tn rho <> semP b rho.
 Proof. eexists. exists (fun _ => false). vm_compute. repeat split. discriminate. Qed.
+
+(* ---- chains in any grouping (Properties/C12.v chain_in_any_grouping, chain_regrouping_irrelevant, one_clause_decides) ----
+   the three ways of writing  a or b or c ; think of a = `s = "hello"`, b = `sn = "x"`, c = `sn = "xy"` *)
+Definition or3_plain : expr := EOr a (EOr b (ELast c)).
+Definition or3_left : expr := EOr (XParen (EOr a (ELast b))) (ELast c).
+Definition or3_right : expr := EOr a (ELast (XParen (EOr b (ELast c)))).
+
+Example or3_groupings : or_grouping [a; b; c] or3_plain /\ or_grouping [a; b; c] or3_left /\ or_grouping [a; b; c] or3_right.
+Proof.
+  repeat split.
+  - apply OgCons, OgCons, OgLast.
+  - apply (OgGroup [a; b] _ [c]); [apply OgCons, OgLast | apply OgLast].
+  - apply OgCons, OgLastGroup, OgCons, OgLast.
+Qed.
+
+Example and4_grouping : and_grouping [a; b; c; d] (EAnd (XParen (EAnd a (ELast (XParen (EAnd b (ELast c)))))) (ELast d)).
+Proof. apply (AgGroup [a; b; c] _ [d]); [apply AgCons, AgLastGroup, AgCons, AgLast | apply AgLast]. Qed.
+
+(* a row on which only the first clause holds is selected by all three spellings *)
+Example one_clause_instance :
+  exists t1 t2 t3, compile fixed_prec (printE or3_plain) = Some t1 /\ compile fixed_prec (printE or3_left) = Some t2 /\
+                   compile fixed_prec (printE or3_right) = Some t3 /\
+                   semP a rho_a = true /\ semP b rho_a = false /\ semP c rho_a = false /\
+                   eval t1 rho_a = true /\ eval t2 rho_a = true /\ eval t3 rho_a = true.
+Proof. do 3 eexists. vm_compute. repeat split. Qed.
+
+(* reading the chain with its first clause answered by the symbol of its neighbours (what merging  a or (b or c)  into one
+   membership test on the neighbours' symbol does: the clause on a is re-targeted, renaming a to b) is not the chain *)
+Definition retarget (n : str) : str := if str_eqb n [97] then [98] else n.
+Example clause_retargeting_refuted :
+  sem or3_plain rho_a = true /\ sem (renameE retarget or3_plain) rho_a = false /\
+  sem or3_left rho_a = sem or3_plain rho_a /\ sem or3_right rho_a = sem or3_plain rho_a.
+Proof. vm_compute. repeat split. Qed.
